@@ -7,7 +7,7 @@
    statement the class is refuted by witness and the theorem is proved on its complement (_partial).
    T_len_only: two views with the same bytes within the length (any capacities) give equal results.
    Only statements, each closed by [exact]; generated layout, proofs in Proofs/Views*.v. *)
-From PV Require Import Model.ViewsShow Spec.Views Proofs.ViewsBase Proofs.Views.
+From PV Require Import Model.ViewsShow Spec.Views Proofs.ViewsBase Proofs.Views Proofs.Views2 Proofs.Views3 Proofs.ViewsLen.
 Open Scope N_scope.
 
 Theorem C01_ARP_getters_safe : forall v, wf v -> bytes_ok (arr v) ->
@@ -16,9 +16,29 @@ Proof. exact ARP_safe. Qed.
 Print Assumptions C01_ARP_getters_safe.
 Theorem C01_ARP_len_only : forall v v', wf v -> wf v' -> bytes_ok (arr v) -> bytes_ok (arr v') ->
   ARP_IsValid v = Ok true -> ARP_IsValid v' = Ok true -> view v = view v' ->
-  getters_len_only [] ARP_getters v v'.
+  getters_len_only [] ARP_getters ARP_specs v v'.
 Proof. exact ARP_len_only. Qed.
 Print Assumptions C01_ARP_len_only.
+
+Theorem C01_DHCP4_getters_safe : forall v, wf v -> bytes_ok (arr v) ->
+  DHCP4_IsValid v = Ok true -> getters_ok [] DHCP4_getters v.
+Proof. exact DHCP4_safe. Qed.
+Print Assumptions C01_DHCP4_getters_safe.
+Theorem C01_DHCP4_len_only : forall v v', wf v -> wf v' -> bytes_ok (arr v) -> bytes_ok (arr v') ->
+  DHCP4_IsValid v = Ok true -> DHCP4_IsValid v' = Ok true -> view v = view v' ->
+  getters_len_only [] DHCP4_getters DHCP4_specs v v'.
+Proof. exact DHCP4_len_only. Qed.
+Print Assumptions C01_DHCP4_len_only.
+
+Theorem C01_DNS_getters_safe : forall v, wf v -> bytes_ok (arr v) ->
+  DNS_IsValid v = Ok true -> getters_ok [] DNS_getters v.
+Proof. exact DNS_safe. Qed.
+Print Assumptions C01_DNS_getters_safe.
+Theorem C01_DNS_len_only : forall v v', wf v -> wf v' -> bytes_ok (arr v) -> bytes_ok (arr v') ->
+  DNS_IsValid v = Ok true -> DNS_IsValid v' = Ok true -> view v = view v' ->
+  getters_len_only [] DNS_getters DNS_specs v v'.
+Proof. exact DNS_len_only. Qed.
+Print Assumptions C01_DNS_len_only.
 
 Theorem C01_Ether_getters_safe_partial : forall v, wf v -> bytes_ok (arr v) ->
   Ether_IsValid v = Ok true -> getters_ok Ether_findings Ether_getters v.
@@ -26,9 +46,99 @@ Proof. exact Ether_safe. Qed.
 Print Assumptions C01_Ether_getters_safe_partial.
 Theorem C01_Ether_len_only_partial : forall v v', wf v -> wf v' -> bytes_ok (arr v) -> bytes_ok (arr v') ->
   Ether_IsValid v = Ok true -> Ether_IsValid v' = Ok true -> view v = view v' ->
-  getters_len_only Ether_findings Ether_getters v v'.
+  getters_len_only Ether_findings Ether_getters Ether_specs v v'.
 Proof. exact Ether_len_only. Qed.
 Print Assumptions C01_Ether_len_only_partial.
+
+Theorem C01_Pause_getters_safe : forall v, wf v -> bytes_ok (arr v) ->
+  Pause_IsValid v = Ok true -> getters_ok [] Pause_getters v.
+Proof. exact Pause_safe. Qed.
+Print Assumptions C01_Pause_getters_safe.
+Theorem C01_Pause_len_only : forall v v', wf v -> wf v' -> bytes_ok (arr v) -> bytes_ok (arr v') ->
+  Pause_IsValid v = Ok true -> Pause_IsValid v' = Ok true -> view v = view v' ->
+  getters_len_only [] Pause_getters Pause_specs v v'.
+Proof. exact Pause_len_only. Qed.
+Print Assumptions C01_Pause_len_only.
+
+Theorem C01_HBH_getters_safe : forall v, wf v -> bytes_ok (arr v) ->
+  HBH_IsValid v = Ok true -> getters_ok [] HBH_getters v.
+Proof. exact HBH_safe. Qed.
+Print Assumptions C01_HBH_getters_safe.
+Theorem C01_HBH_len_only : forall v v', wf v -> wf v' -> bytes_ok (arr v) -> bytes_ok (arr v') ->
+  HBH_IsValid v = Ok true -> HBH_IsValid v' = Ok true -> view v = view v' ->
+  getters_len_only [] HBH_getters HBH_specs v v'.
+Proof. exact HBH_len_only. Qed.
+Print Assumptions C01_HBH_len_only.
+
+Theorem C01_ICMP_getters_safe : forall v, wf v -> bytes_ok (arr v) ->
+  ICMP_IsValid v = Ok true -> getters_ok [] ICMP_getters v.
+Proof. exact ICMP_safe. Qed.
+Print Assumptions C01_ICMP_getters_safe.
+Theorem C01_ICMP_len_only : forall v v', wf v -> wf v' -> bytes_ok (arr v) -> bytes_ok (arr v') ->
+  ICMP_IsValid v = Ok true -> ICMP_IsValid v' = Ok true -> view v = view v' ->
+  getters_len_only [] ICMP_getters ICMP_specs v v'.
+Proof. exact ICMP_len_only. Qed.
+Print Assumptions C01_ICMP_len_only.
+
+Theorem C01_NA_getters_safe : forall v, wf v -> bytes_ok (arr v) ->
+  NA_IsValid v = Ok true -> getters_ok [] NA_getters v.
+Proof. exact NA_safe. Qed.
+Print Assumptions C01_NA_getters_safe.
+Theorem C01_NA_len_only : forall v v', wf v -> wf v' -> bytes_ok (arr v) -> bytes_ok (arr v') ->
+  NA_IsValid v = Ok true -> NA_IsValid v' = Ok true -> view v = view v' ->
+  getters_len_only [] NA_getters NA_specs v v'.
+Proof. exact NA_len_only. Qed.
+Print Assumptions C01_NA_len_only.
+
+Theorem C01_NS_getters_safe : forall v, wf v -> bytes_ok (arr v) ->
+  NS_IsValid v = Ok true -> getters_ok [] NS_getters v.
+Proof. exact NS_safe. Qed.
+Print Assumptions C01_NS_getters_safe.
+Theorem C01_NS_len_only : forall v v', wf v -> wf v' -> bytes_ok (arr v) -> bytes_ok (arr v') ->
+  NS_IsValid v = Ok true -> NS_IsValid v' = Ok true -> view v = view v' ->
+  getters_len_only [] NS_getters NS_specs v v'.
+Proof. exact NS_len_only. Qed.
+Print Assumptions C01_NS_len_only.
+
+Theorem C01_Redirect6_getters_safe : forall v, wf v -> bytes_ok (arr v) ->
+  Redirect6_IsValid v = Ok true -> getters_ok [] Redirect6_getters v.
+Proof. exact Redirect6_safe. Qed.
+Print Assumptions C01_Redirect6_getters_safe.
+Theorem C01_Redirect6_len_only : forall v v', wf v -> wf v' -> bytes_ok (arr v) -> bytes_ok (arr v') ->
+  Redirect6_IsValid v = Ok true -> Redirect6_IsValid v' = Ok true -> view v = view v' ->
+  getters_len_only [] Redirect6_getters Redirect6_specs v v'.
+Proof. exact Redirect6_len_only. Qed.
+Print Assumptions C01_Redirect6_len_only.
+
+Theorem C01_RA_getters_safe : forall v, wf v -> bytes_ok (arr v) ->
+  RA_IsValid v = Ok true -> getters_ok [] RA_getters v.
+Proof. exact RA_safe. Qed.
+Print Assumptions C01_RA_getters_safe.
+Theorem C01_RA_len_only : forall v v', wf v -> wf v' -> bytes_ok (arr v) -> bytes_ok (arr v') ->
+  RA_IsValid v = Ok true -> RA_IsValid v' = Ok true -> view v = view v' ->
+  getters_len_only [] RA_getters RA_specs v v'.
+Proof. exact RA_len_only. Qed.
+Print Assumptions C01_RA_len_only.
+
+Theorem C01_ICMPEcho_getters_safe : forall v, wf v -> bytes_ok (arr v) ->
+  ICMPEcho_IsValid v = Ok true -> getters_ok [] ICMPEcho_getters v.
+Proof. exact ICMPEcho_safe. Qed.
+Print Assumptions C01_ICMPEcho_getters_safe.
+Theorem C01_ICMPEcho_len_only : forall v v', wf v -> wf v' -> bytes_ok (arr v) -> bytes_ok (arr v') ->
+  ICMPEcho_IsValid v = Ok true -> ICMPEcho_IsValid v' = Ok true -> view v = view v' ->
+  getters_len_only [] ICMPEcho_getters ICMPEcho_specs v v'.
+Proof. exact ICMPEcho_len_only. Qed.
+Print Assumptions C01_ICMPEcho_len_only.
+
+Theorem C01_IEEE1905_getters_safe : forall v, wf v -> bytes_ok (arr v) ->
+  IEEE1905_IsValid v = Ok true -> getters_ok [] IEEE1905_getters v.
+Proof. exact IEEE1905_safe. Qed.
+Print Assumptions C01_IEEE1905_getters_safe.
+Theorem C01_IEEE1905_len_only : forall v v', wf v -> wf v' -> bytes_ok (arr v) -> bytes_ok (arr v') ->
+  IEEE1905_IsValid v = Ok true -> IEEE1905_IsValid v' = Ok true -> view v = view v' ->
+  getters_len_only [] IEEE1905_getters IEEE1905_specs v v'.
+Proof. exact IEEE1905_len_only. Qed.
+Print Assumptions C01_IEEE1905_len_only.
 
 Theorem C01_IP4_getters_safe_partial : forall v, wf v -> bytes_ok (arr v) ->
   IP4_IsValid v = Ok true -> getters_ok IP4_findings_C01 IP4_getters v.
@@ -36,9 +146,39 @@ Proof. exact IP4_safe. Qed.
 Print Assumptions C01_IP4_getters_safe_partial.
 Theorem C01_IP4_len_only_partial : forall v v', wf v -> wf v' -> bytes_ok (arr v) -> bytes_ok (arr v') ->
   IP4_IsValid v = Ok true -> IP4_IsValid v' = Ok true -> view v = view v' ->
-  getters_len_only IP4_findings_C02 IP4_getters v v'.
+  getters_len_only IP4_findings_C02 IP4_getters IP4_specs v v'.
 Proof. exact IP4_len_only. Qed.
 Print Assumptions C01_IP4_len_only_partial.
+
+Theorem C01_IP6_getters_safe : forall v, wf v -> bytes_ok (arr v) ->
+  IP6_IsValid v = Ok true -> getters_ok [] IP6_getters v.
+Proof. exact IP6_safe. Qed.
+Print Assumptions C01_IP6_getters_safe.
+Theorem C01_IP6_len_only : forall v v', wf v -> wf v' -> bytes_ok (arr v) -> bytes_ok (arr v') ->
+  IP6_IsValid v = Ok true -> IP6_IsValid v' = Ok true -> view v = view v' ->
+  getters_len_only [] IP6_getters IP6_specs v v'.
+Proof. exact IP6_len_only. Qed.
+Print Assumptions C01_IP6_len_only.
+
+Theorem C01_RRCP_getters_safe : forall v, wf v -> bytes_ok (arr v) ->
+  RRCP_IsValid v = Ok true -> getters_ok [] RRCP_getters v.
+Proof. exact RRCP_safe. Qed.
+Print Assumptions C01_RRCP_getters_safe.
+Theorem C01_RRCP_len_only : forall v v', wf v -> wf v' -> bytes_ok (arr v) -> bytes_ok (arr v') ->
+  RRCP_IsValid v = Ok true -> RRCP_IsValid v' = Ok true -> view v = view v' ->
+  getters_len_only [] RRCP_getters RRCP_specs v v'.
+Proof. exact RRCP_len_only. Qed.
+Print Assumptions C01_RRCP_len_only.
+
+Theorem C01_SNAP_getters_safe : forall v, wf v -> bytes_ok (arr v) ->
+  SNAP_IsValid v = Ok true -> getters_ok [] SNAP_getters v.
+Proof. exact SNAP_safe. Qed.
+Print Assumptions C01_SNAP_getters_safe.
+Theorem C01_SNAP_len_only : forall v v', wf v -> wf v' -> bytes_ok (arr v) -> bytes_ok (arr v') ->
+  SNAP_IsValid v = Ok true -> SNAP_IsValid v' = Ok true -> view v = view v' ->
+  getters_len_only [] SNAP_getters SNAP_specs v v'.
+Proof. exact SNAP_len_only. Qed.
+Print Assumptions C01_SNAP_len_only.
 
 Theorem C01_TCP_getters_safe_partial : forall v, wf v -> bytes_ok (arr v) ->
   TCP_IsValid v = Ok true -> getters_ok TCP_findings_C01 TCP_getters v.
@@ -46,7 +186,7 @@ Proof. exact TCP_safe. Qed.
 Print Assumptions C01_TCP_getters_safe_partial.
 Theorem C01_TCP_len_only_partial : forall v v', wf v -> wf v' -> bytes_ok (arr v) -> bytes_ok (arr v') ->
   TCP_IsValid v = Ok true -> TCP_IsValid v' = Ok true -> view v = view v' ->
-  getters_len_only TCP_findings_C02 TCP_getters v v'.
+  getters_len_only TCP_findings_C02 TCP_getters TCP_specs v v'.
 Proof. exact TCP_len_only. Qed.
 Print Assumptions C01_TCP_len_only_partial.
 
@@ -56,9 +196,19 @@ Proof. exact UDP_safe. Qed.
 Print Assumptions C01_UDP_getters_safe.
 Theorem C01_UDP_len_only : forall v v', wf v -> wf v' -> bytes_ok (arr v) -> bytes_ok (arr v') ->
   UDP_IsValid v = Ok true -> UDP_IsValid v' = Ok true -> view v = view v' ->
-  getters_len_only [] UDP_getters v v'.
+  getters_len_only [] UDP_getters UDP_specs v v'.
 Proof. exact UDP_len_only. Qed.
 Print Assumptions C01_UDP_len_only.
+
+Theorem C01_U880a_getters_safe : forall v, wf v -> bytes_ok (arr v) ->
+  U880a_IsValid v = Ok true -> getters_ok [] U880a_getters v.
+Proof. exact U880a_safe. Qed.
+Print Assumptions C01_U880a_getters_safe.
+Theorem C01_U880a_len_only : forall v v', wf v -> wf v' -> bytes_ok (arr v) -> bytes_ok (arr v') ->
+  U880a_IsValid v = Ok true -> U880a_IsValid v' = Ok true -> view v = view v' ->
+  getters_len_only [] U880a_getters U880a_specs v v'.
+Proof. exact U880a_len_only. Qed.
+Print Assumptions C01_U880a_len_only.
 
 (* ---- refutations of the full statement on the real code's model (DESIGN section 11 #3, #8) ---- *)
 Theorem C01_IP4_getters_safe_refuted :
